@@ -16,7 +16,15 @@ tie of load_readback to model.py: x_modelpy accepts as `converter=` only partial
          by their BODIES: closure, lambda, comprehension or list(map(..)) forms), `lambda x: C(**x)`, the uuid lambda and
          positional dispatch functions; any other converter (a new function, a changed factory body) is REJECTED - the
          compatibility checker `compat` (C18.compat_current) then is not re-proved and the streams above must find the input.
-known findings: keys loader:<kind> | loader:<Def>.<prop> | eq-raises:<Class> | eq-ignores:<attr> | gate:<edit kind> | merge | purity:<aspect>
+history: the gate is also exercised over PROCESS HISTORIES (lib/c18_history.py, always on): generator.__main__.main called several times in one
+         interpreter while the model files are rewritten between the calls (valid then invalid at the same path, invalid-valid-invalid,
+         valid then another valid document, two paths with swapped roles, two files in one call, the real python plugin).  A step on a
+         schema-violating file must raise with nothing written and the plugin not called, a step on valid files must hand the recording
+         plugin the model of the documents on disk NOW.  The translated effect list is a function of the documents alone; x_main rejects
+         what could make main depend on earlier calls (decorators such as functools.lru_cache on a followed helper), and this stream finds
+         the concrete history when it does.  Every step of the recording-plugin histories is also a case of the main correspondence stream.
+known findings: keys loader:<kind> | loader:<Def>.<prop> | eq-raises:<Class> | eq-ignores:<attr> | gate:<edit kind> | merge | purity:<aspect> |
+         history:<aspect>:<plan>
 """
 import concurrent.futures
 import copy
@@ -27,6 +35,7 @@ import re
 import subprocess
 
 import c18_docs as D
+import c18_history as HS
 import vcommon as V
 from mmlib import cj as plain_cj
 
@@ -42,7 +51,10 @@ RULE = ("documents: the committed lsp.json (whole); one small document per featu
         "create_lsp_model, incl. first files with empty sections, each merged twice on the same in-memory documents (inputs compared before/after, "
         "earlier model re-read, first document loaded alone afterwards); all pairs of 12 edited documents plus "
         "single-skeleton-attribute mutation pairs and shape pairs (two coverage documents of one site in different shapes: T vs [T], [] vs [T], "
-        "[T] vs [T, U]; quick: all cross-shape pairs of array sites + 40 sampled others) for ==; schema-violating edits x plugins for the gate. A case counts as distinct "
+        "[T] vs [T, U]; quick: all cross-shape pairs of array sites + 40 sampled others) for ==; schema-violating edits x plugins for the gate; "
+        "process histories for the gate (main called repeatedly in one interpreter, files rewritten in between: valid->invalid per edit (4 quick / all thorough), "
+        "invalid->valid->invalid, valid->other valid->first, two paths swapped, two files in one call rewritten and reordered, python plugin on the committed model "
+        "then with one required key removed). A case counts as distinct "
         "non-trivial by (stream, canonical input) hash; the empty document is the only trivial one.")
 
 PLUGINS_QUICK = ["python"]
@@ -278,6 +290,13 @@ def replay_obj(r):
     if kind == "gate":
         g = run_generator(inp["docs"], inp["plugin"])
         return gate_fails(g), "rc=%s written=%s plugin reached=%s" % (g["rc"], g["n_written"], g["reached"])
+    if kind == "history":
+        h = inp["history"]
+        js = HS.judge(h, HS.run_history(h), HS.oracle([h], real))
+        bad = [j["bad"] for j in js if j["bad"]]
+        lines = ["step %d: files on disk %s -> %s" % (j["step"], "all schema-valid" if j["valid"] else "VIOLATE the schema", j["observed"]) for j in js]
+        return bool(bad), "one process, main called %d times (%s):\n  %s\n%s" % (len(js), h["label"], "\n  ".join(lines),
+                                                                                 "; ".join("%s: %s" % b for b in bad) if bad else "every step behaves as the property says")
     return None, "no concrete input recorded"
 
 
@@ -345,6 +364,12 @@ def run(chk):
         "x_main follows calls of module-level helper functions of __main__.py by splicing their bodies in at the call (parameters substituted, locals renamed apart, "
         "a final `return` bound to the call's target; early returns / nested functions / star-arguments / recursion rejected): the inlining itself is trusted, "
         "its result (effect order, schema object) is cross-checked against the observed run",
+        "x_modelpy normalises create_lsp_model and the __eq__ methods before its grammar applies: a module-level tuple / list of string literals bound exactly once "
+        "(lists: only ever iterated) is a constant table, `for x in TABLE` is unrolled, all(E for x in TABLE) becomes the and-chain, tuple(..)/[..] over TABLE the literal, "
+        "getattr(o, 'ident') the attribute read; the table is compared with the imported module's value; x_main reads `with P.open(..) as F: X = json.load(F)` as "
+        "X = json.load(P.open(..)) (single load, F not used elsewhere; other context managers rejected); both rewrites are argued in the translators' comments, not verified",
+        "lib/c18_history.py + lib/c18_hplugin.py: the process-history driver calls the real generator.__main__.main repeatedly in one interpreter (nothing patched) and judges "
+        "each step against the real jsonschema under root MetaModel",
         "lib/c18_docs.py: schema_coverage reads lsp.schema.json (type, properties, required, anyOf/oneOf, items, enum, const, $ref) to enumerate shapes; every document it "
         "emits is re-checked against the real jsonschema under root MetaModel and against the Coq jsv",
         "hand-written semantics LSP.JSchema (draft-07 subset) and LSP.Loader (attrs __init__ order, converters, validators, Python == on lists/dicts/objects, effect order of main): validated by the correspondence streams, not verified",
@@ -501,7 +526,7 @@ def run(chk):
                 deps = {"C18_load_readback": ["compat_current", "root_pair_current"], "C18_merge_concat": ["merge_fields_current"],
                         "C18_eq_total": ["tables_ok_current", "eqs_ok_current"], "C18_eq_refl_load": ["tables_ok_current", "eqs_ok_current"],
                         "C18_eq_skeleton": ["tables_ok_current", "eqs_ok_current", "eq_covers_current"], "C18_gate_partial": ["order_current"],
-                        "C18_gate": ["order_current", "gate_sound_current"], "C18_example": list(inst)}
+                        "C18_gate": ["order_current", "gate_sound_current"], "C18_gate_history": ["order_current", "gate_sound_current", "C18_gate"], "C18_example": list(inst)}
                 dead = {n for n in names if (n in inst and not inst[n]) or [d for d in deps.get(n, []) if not inst.get(d, True)]}
                 if bad:
                     dead.add(bad)
@@ -752,6 +777,38 @@ def run(chk):
                     add_violation(key, {"kind": "gate", "input": {"docs": ds, "plugin": pl}, "expected": "exit status != 0, output and test directories empty, plugin not loaded",
                                         "observed_impl": "rc=%s, %d files written %s, plugin reached=%s" % (g["rc"], g["n_written"], g["written"][:3], g["reached"])})
         chk.extra["gate_runs"] = {"runs": len(jobs), "plugins": plugins, "violating": gate_viol}
+
+        # gate over process histories: main called repeatedly in ONE interpreter while the files change on disk (lib/c18_history.py)
+        hplans = HS.plans(quick, committed)
+        hobs = HS.run_all(hplans)
+        horc = HS.oracle(hplans, real)
+        hjudged = [HS.judge(h, o, horc) for h, o in zip(hplans, hobs)]
+        hbad = []
+        for h, o, js in zip(hplans, hobs, hjudged):
+            chk.count(("history", h["plugin"], D.strict_dumps(h["steps"])))
+            first = next((j for j in js if j["bad"]), None)
+            if first:
+                key = "history:%s:%s" % (first["bad"][0], h["label"].split(":")[0])
+                if key not in known_keys:
+                    hbad.append((len(D.strict_dumps(h["steps"])), key, {
+                        "kind": "history", "label": h["label"], "input": {"history": h},
+                        "expected": "in one process, whatever ran before: a call of main on a schema-violating file raises, calls no plugin, writes nothing; a call on valid files "
+                                    "hands the plugin the model of the documents on disk at that moment",
+                        "observed_impl": "; ".join(j["bad"][1] for j in js if j["bad"]),
+                        "steps": [{"step": j["step"], "rewritten_before_the_call": sorted(h["steps"][j["step"]]["write"]), "argv": ["--model"] + ["<dir>/" + m for m in h["steps"][j["step"]]["models"]] + ["--plugin", h["plugin"], "--output-dir", "<dir>/out%d" % j["step"],
+                                                                                                             "--test-dir", "<dir>/tests%d" % j["step"]],
+                                   "files_on_disk_schema_valid": j["valid"], "expected": j["expected"], "observed": j["observed"], "violates": bool(j["bad"])} for j in js]}))
+        hbad.sort(key=lambda x: x[:2])
+        hfirst = {}
+        for x in hbad:
+            hfirst.setdefault(x[1], x)
+        for _, key, obj in sorted(hfirst.values(), key=lambda x: x[:2])[:3]:            # smallest histories first; one systemic defect is not reported ten times
+            add_violation(key, dict(obj, failing_histories_in_this_run=len(hbad)))
+        n_hsteps = sum(len(js) for js in hjudged)
+        chk.obligation("search:gate-holds-over-process-histories", not hbad, "%d histories, %d calls of main (files rewritten between calls, one interpreter per history)"
+                       % (len(hplans), n_hsteps))
+        chk.extra["gate_histories"] = {"histories": len(hplans), "calls_of_main": n_hsteps, "violating": len(hbad), "plans": [h["label"] for h in hplans]}
+        chk.sample({"stream": "gate-history", "label": hplans[0]["label"], "impl": [j["observed"] for j in hjudged[0]]})
         chk.sample({"stream": "gate", "label": jobs[0][0], "plugin": jobs[0][2], "impl": {k: gres[0][k] for k in ("rc", "n_written", "reached")}})
 
         # ---------------------------------------------------------------- 7. correspondence: model vs real code
@@ -774,6 +831,10 @@ def run(chk):
             for (lab, ds, pl), g in zip(jobs + vjobs, gres):
                 if pl == "python":
                     cases.append({"kind": "main", "docs": ds, "real": g["reached"] or g["rc"] == 0}); meta.append(("main", lab))
+            for h, js in zip(hplans, hjudged):      # the model of main is a function of the documents on disk at the call: every step of a history is a case
+                if h["plugin"] == HS.STUB:
+                    for j in js:
+                        cases.append({"kind": "main", "docs": j["documents"], "real": j["reached"]}); meta.append(("main", "history:%s#%d" % (h["label"], j["step"])))
             codes = run_cases("s%d%s" % (chk.seed, "q" if quick else "t"), cases)
             n_corr = len(cases)
             by_stream = {}
@@ -794,7 +855,8 @@ def run(chk):
                 failed.append(("correspondence", "LSP.Loader / LSP.JSchema vs the real code", json.dumps(disagreements[:3])[:3000]))
         chk.extra["traces_validated_against_impl"] = n_corr
         chk.extra["input_distribution"] = {"documents": len(docs), "feature": len(feats), "random_valid": n_rand, "invalid_single_edits": len(invalid_docs),
-                                           "create_groups": len(groups), "purity_groups": len(pgroups), "eq_pairs": len(epairs), "gate_runs": len(jobs)}
+                                           "create_groups": len(groups), "purity_groups": len(pgroups), "eq_pairs": len(epairs), "gate_runs": len(jobs),
+                                           "gate_histories": len(hplans), "gate_history_calls": n_hsteps}
 
     # -------------------------------------------------------------------- 8. verdict
     for key, obj in sorted(viol.items()):
@@ -803,7 +865,7 @@ def run(chk):
     if failed and not viol:
         chk.violation({"property": "C18", "kind": "obligation no longer checks", "broken": [{"what": a, "name": b, "detail": c} for a, b, c in failed],
                        "searched": "%d documents through the real loader, %d == pairs, %d generator runs against the property's oracle: none fails"
-                                   % (len(docs), len(epairs), len(jobs))}, no_input=True)
+                                   % (len(docs), len(epairs), len(jobs) + n_hsteps)}, no_input=True)
     elif failed:
         chk.extra["broken_obligations"] = [{"what": a, "name": b, "detail": c[:600]} for a, b, c in failed]
 
